@@ -115,7 +115,7 @@ func (c *Ctx) prodTable0() *ProdTable {
 			continue
 		}
 		pt.Reducers = append(pt.Reducers, e.Fn)
-		paths, complete := c.enumPaths(e.Fn, 4000)
+		paths, complete := c.enumPathsInl(e.Fn, 4000, pt.Wrapper)
 		if !complete {
 			pt.Errs = append(pt.Errs, "too many paths in "+fnName(e.Fn))
 		}
@@ -180,7 +180,7 @@ func isStringType(t types.Type) bool {
 
 // elemRef: is v (resolved) a read of window element elems[i] / elems[len-k], possibly asserted?
 func (c *Ctx) elemRef(v ssa.Value, e *env, window ssa.Value) (idx int64, fromEnd bool, asserted types.Type, ok bool) {
-	v = c.resolve(v, e)
+	v, e = c.resolveE(v, e)
 	switch x := v.(type) {
 	case *ssa.Extract:
 		if ta, isTA := x.Tuple.(*ssa.TypeAssert); isTA && x.Index == 0 {
@@ -210,13 +210,14 @@ func (c *Ctx) elemRef(v ssa.Value, e *env, window ssa.Value) (idx int64, fromEnd
 
 // lenRelIndex: index is the constant c (fromEnd=false) or len(window)-c (fromEnd=true).
 func (c *Ctx) lenRelIndex(ix ssa.Value, e *env, window ssa.Value) (int64, bool, bool) {
-	ix = c.resolve(ix, e)
+	ix, e = c.resolveE(ix, e)
 	if n, ok := constIntVal(ix); ok {
 		return n, false, true
 	}
 	if b, ok := ix.(*ssa.BinOp); ok && b.Op == token.SUB {
-		if call, ok := c.resolve(b.X, e).(*ssa.Call); ok {
-			if bi, ok := call.Call.Value.(*ssa.Builtin); ok && bi.Name() == "len" && c.resolve(call.Call.Args[0], e) == window {
+		bx, be := c.resolveE(b.X, e)
+		if call, ok := bx.(*ssa.Call); ok {
+			if bi, ok := call.Call.Value.(*ssa.Builtin); ok && bi.Name() == "len" && c.resolve(call.Call.Args[0], be) == window {
 				if n, ok := constIntVal(c.resolve(b.Y, e)); ok {
 					return n, true, true
 				}
@@ -228,18 +229,23 @@ func (c *Ctx) lenRelIndex(ix ssa.Value, e *env, window ssa.Value) (int64, bool, 
 
 // sliceLiteral: v is `slice A[:]` of a fresh array whose elements are stored by constant index.
 func (c *Ctx) sliceLiteral(v ssa.Value, e *env) ([]ssa.Value, bool) {
-	v = c.resolve(v, e)
+	l, _, ok := c.sliceLiteralE(v, e)
+	return l, ok
+}
+
+func (c *Ctx) sliceLiteralE(v ssa.Value, e *env) ([]ssa.Value, *env, bool) {
+	v, e = c.resolveE(v, e)
 	sl, ok := v.(*ssa.Slice)
 	if !ok || sl.Low != nil || sl.High != nil {
-		return nil, false
+		return nil, nil, false
 	}
 	arr, ok := sl.X.(*ssa.Alloc)
 	if !ok {
-		return nil, false
+		return nil, nil, false
 	}
 	at, ok := arr.Type().Underlying().(*types.Pointer).Elem().Underlying().(*types.Array)
 	if !ok {
-		return nil, false
+		return nil, nil, false
 	}
 	out := make([]ssa.Value, at.Len())
 	for _, ref := range *arr.Referrers() {
@@ -247,7 +253,7 @@ func (c *Ctx) sliceLiteral(v ssa.Value, e *env) ([]ssa.Value, bool) {
 		case *ssa.IndexAddr:
 			n, ok := constIntVal(r.Index)
 			if !ok || n < 0 || n >= at.Len() {
-				return nil, false
+				return nil, nil, false
 			}
 			for _, r2 := range *r.Referrers() {
 				if st, ok := r2.(*ssa.Store); ok && st.Addr == r {
@@ -256,15 +262,15 @@ func (c *Ctx) sliceLiteral(v ssa.Value, e *env) ([]ssa.Value, bool) {
 			}
 		case *ssa.Slice:
 		default:
-			return nil, false
+			return nil, nil, false
 		}
 	}
-	return out, true
+	return out, e, true
 }
 
 // dropCount: v is `stack[:len(stack)-k]` of the nonTerminals parameter, directly or through a helper.
 func (c *Ctx) dropCount(v ssa.Value, e *env, nt ssa.Value) (int64, bool) {
-	v = c.resolve(v, e)
+	v, e = c.resolveE(v, e)
 	switch x := v.(type) {
 	case *ssa.Slice:
 		if c.resolve(x.X, e) == nt && x.Low == nil && x.High != nil {
@@ -414,10 +420,14 @@ func (c *Ctx) prodRow(fn *ssa.Function, p *Path, wrapper *ssa.Function) *ProdRow
 	}
 	maxFromEnd := 0
 	for _, a := range p.Atoms {
+		ae := a.Env
+		if ae == nil {
+			ae = p.Env
+		}
 		switch a.Kind {
 		case "type":
 			if len(a.Args) == 1 {
-				if i, fe, _, ok := c.elemRef(a.Args[0], p.Env, window); ok {
+				if i, fe, _, ok := c.elemRef(a.Args[0], ae, window); ok {
 					if fe && int(i) > maxFromEnd {
 						maxFromEnd = int(i)
 					}
@@ -432,13 +442,14 @@ func (c *Ctx) prodRow(fn *ssa.Function, p *Path, wrapper *ssa.Function) *ProdRow
 			row.Other = append(row.Other, a.String())
 		case "cmp":
 			// <elem>.(lex.Token).Typ ⋈ const
-			if bo, ok := c.resolve(a.Src, p.Env).(*ssa.BinOp); ok {
-				l := c.resolve(bo.X, p.Env)
+			src, se := c.resolveE(a.Src, ae)
+			if bo, ok := src.(*ssa.BinOp); ok {
+				l, le := c.resolveE(bo.X, se)
 				if _, isC := l.(*ssa.Const); isC {
-					l = c.resolve(bo.Y, p.Env)
+					l, le = c.resolveE(bo.Y, se)
 				}
-				if base, field := fieldLoad(c, l, p.Env); base != nil && field == "Typ" {
-					if i, fe, _, ok := c.elemRef(base, p.Env, window); ok {
+				if base, field := fieldLoad(c, l, le); base != nil && field == "Typ" {
+					if i, fe, _, ok := c.elemRef(base, le, window); ok {
 						if fe && int(i) > maxFromEnd {
 							maxFromEnd = int(i)
 						}
@@ -502,17 +513,21 @@ func (c *Ctx) prodRow(fn *ssa.Function, p *Path, wrapper *ssa.Function) *ProdRow
 		row.Pos[fix(i)] = pi
 	}
 	// results
-	out := c.resolve(p.Ret.Results[0], p.Env)
+	out, oe := c.resolveE(p.Ret.Results[0], p.Env)
+	litEnv := oe
 	var lit []ssa.Value
-	if l, ok := c.sliceLiteral(out, p.Env); ok {
+	if l, le, ok := c.sliceLiteralE(out, oe); ok {
 		lit = l
+		litEnv = le
 		row.OutLen = len(l)
 	} else if call, ok := out.(*ssa.Call); ok {
 		if bi, ok := call.Call.Value.(*ssa.Builtin); ok && bi.Name() == "append" && len(call.Call.Args) == 2 {
-			if sl, ok := c.resolve(call.Call.Args[0], p.Env).(*ssa.Slice); ok && c.resolve(sl.X, p.Env) == window && sl.Low == nil && sl.High != nil {
-				if n, fe, ok := c.lenRelIndex(sl.High, p.Env, window); ok && fe {
-					if l, ok := c.sliceLiteral(call.Call.Args[1], p.Env); ok {
+			a0, a0e := c.resolveE(call.Call.Args[0], oe)
+			if sl, ok := a0.(*ssa.Slice); ok && c.resolve(sl.X, a0e) == window && sl.Low == nil && sl.High != nil {
+				if n, fe, ok := c.lenRelIndex(sl.High, a0e, window); ok && fe {
+					if l, le, ok := c.sliceLiteralE(call.Call.Args[1], oe); ok {
 						lit = l
+						litEnv = le
 						row.OutLen = len(l)
 						if int(n) != row.Suffix && !row.Exact {
 							row.Err = fmt.Sprintf("suffix production keeps elems[:len-%d] but matched %d trailing positions", n, row.Suffix)
@@ -527,13 +542,13 @@ func (c *Ctx) prodRow(fn *ssa.Function, p *Path, wrapper *ssa.Function) *ProdRow
 	}
 	if lit == nil {
 		row.OutKind = "other"
-		row.Err = "returned elements are not a recognisable literal: " + c.key(out, p.Env)
+		row.Err = "returned elements are not a recognisable literal: " + c.key(out, oe)
 	} else if len(lit) != 1 {
 		row.OutKind = "other"
 		row.Err = fmt.Sprintf("production returns %d elements", len(lit))
 	} else {
-		v := c.resolve(lit[0], p.Env)
-		if i, fe, asserted, ok := c.elemRef(v, p.Env, window); ok {
+		v, ve := c.resolveE(lit[0], litEnv)
+		if i, fe, asserted, ok := c.elemRef(v, ve, window); ok {
 			row.OutKind = "identity"
 			row.Identity = fix(abs(i, fe))
 			if asserted == nil {
@@ -541,25 +556,26 @@ func (c *Ctx) prodRow(fn *ssa.Function, p *Path, wrapper *ssa.Function) *ProdRow
 					row.Pos[row.Identity] = &PosInfo{Kind: "unasserted"}
 				}
 			}
-		} else if call, ok := v.(*ssa.Call); ok && call.Call.StaticCallee() != nil {
+		} else if call, ok := v.(*ssa.Call); ok && c.calleeE(call, ve) != nil {
 			row.OutKind = "ctor"
-			row.Ctor = call.Call.StaticCallee()
+			row.Ctor = c.calleeE(call, ve)
 			ops := c.ctorOperator(row.Ctor)
 			if len(ops) == 1 {
 				row.Op = ops[0]
 			} else if row.Ctor == c.pkgFunc(pkgExpr, "Expr") && len(call.Call.Args) >= 2 {
-				if k, ok := c.resolve(call.Call.Args[1], p.Env).(*ssa.Const); ok {
+				if k, ok := c.resolve(call.Call.Args[1], ve).(*ssa.Const); ok {
 					row.Op = c.constName(k)
 				}
 			} else {
 				row.AltOps = ops
 			}
-			for _, a := range c.flattenArgs(call, p.Env) {
-				row.Args = append(row.Args, c.ctorArg(a, p, window, wrapper, fix, abs))
+			args, ae := c.flattenArgsE(call, ve)
+			for _, a := range args {
+				row.Args = append(row.Args, c.ctorArg(a, ae, p, window, wrapper, fix, abs))
 			}
 		} else {
 			row.OutKind = "other"
-			row.Err = "returned element is neither a window position nor a constructor call: " + c.key(v, p.Env)
+			row.Err = "returned element is neither a window position nor a constructor call: " + c.key(v, ve)
 		}
 	}
 	if n, ok := c.dropCount(p.Ret.Results[1], p.Env, nt); ok {
@@ -570,11 +586,22 @@ func (c *Ctx) prodRow(fn *ssa.Function, p *Path, wrapper *ssa.Function) *ProdRow
 
 // flattenArgs expands a variadic slice literal argument into its elements.
 func (c *Ctx) flattenArgs(call *ssa.Call, e *env) []ssa.Value {
+	out, _ := c.flattenArgsE(call, e)
+	return out
+}
+
+// flattenArgsE: as flattenArgs; the returned environment is the one the arguments are read in (the
+// variadic literal and the plain arguments live in the same frame as the call).
+func (c *Ctx) flattenArgsE(call *ssa.Call, e *env) ([]ssa.Value, *env) {
+	return c.flattenArgs0(call, e), e
+}
+
+func (c *Ctx) flattenArgs0(call *ssa.Call, e *env) []ssa.Value {
 	var out []ssa.Value
 	sig := call.Call.Signature()
 	for i, a := range call.Call.Args {
 		if sig.Variadic() && i == len(call.Call.Args)-1 {
-			if l, ok := c.sliceLiteral(a, e); ok {
+			if l, le, ok := c.sliceLiteralE(a, e); ok && le == e {
 				out = append(out, l...)
 				continue
 			}
@@ -587,18 +614,18 @@ func (c *Ctx) flattenArgs(call *ssa.Call, e *env) []ssa.Value {
 	return out
 }
 
-func (c *Ctx) ctorArg(a ssa.Value, p *Path, window ssa.Value, wrapper *ssa.Function,
+func (c *Ctx) ctorArg(a ssa.Value, e *env, p *Path, window ssa.Value, wrapper *ssa.Function,
 	fix func(int) int, abs func(int64, bool) int) CtorArg {
-	v := c.resolve(a, p.Env)
+	v, e := c.resolveE(a, e)
 	arg := CtorArg{Pos: -1, Val: v}
 	if call, ok := v.(*ssa.Call); ok && wrapper != nil && call.Call.StaticCallee() == wrapper {
 		// wrapped only if the helper receives the reducer's own default-field parameter unchanged
-		if len(call.Call.Args) == 2 && c.resolve(call.Call.Args[1], p.Env) == ssa.Value(p.Fn.Params[len(p.Fn.Params)-1]) {
+		if len(call.Call.Args) == 2 && c.resolve(call.Call.Args[1], e) == ssa.Value(p.Fn.Params[len(p.Fn.Params)-1]) {
 			arg.Wrapped = true
 		}
-		v = c.resolve(call.Call.Args[0], p.Env)
+		v, e = c.resolveE(call.Call.Args[0], e)
 	}
-	if i, fe, asserted, ok := c.elemRef(v, p.Env, window); ok {
+	if i, fe, asserted, ok := c.elemRef(v, e, window); ok {
 		arg.Pos = fix(abs(i, fe))
 		if asserted != nil {
 			arg.Asserted = typeStr(asserted)
@@ -611,31 +638,31 @@ func (c *Ctx) ctorArg(a ssa.Value, p *Path, window ssa.Value, wrapper *ssa.Funct
 	}
 	// nested constructor (e.g. IN(term, LIST(literals))) or derived scalar: collect feeding positions
 	seen := map[ssa.Value]bool{}
-	var walk func(x ssa.Value, d int)
-	walk = func(x ssa.Value, d int) {
-		x = c.resolve(x, p.Env)
+	var walk func(x ssa.Value, xe *env, d int)
+	walk = func(x ssa.Value, xe *env, d int) {
+		x, xe = c.resolveE(x, xe)
 		if x == nil || seen[x] || d > 12 {
 			return
 		}
 		seen[x] = true
-		if i, fe, _, ok := c.elemRef(x, p.Env, window); ok {
+		if i, fe, _, ok := c.elemRef(x, xe, window); ok {
 			arg.Derived = append(arg.Derived, fix(abs(i, fe)))
 			return
 		}
 		if in, ok := x.(ssa.Instruction); ok {
 			for _, op := range in.Operands(nil) {
 				if *op != nil {
-					walk(*op, d+1)
+					walk(*op, xe, d+1)
 				}
 			}
 		}
-		if sl, ok := c.sliceLiteral(x, p.Env); ok {
+		if sl, sle, ok := c.sliceLiteralE(x, xe); ok {
 			for _, el := range sl {
-				walk(el, d+1)
+				walk(el, sle, d+1)
 			}
 		}
 	}
-	walk(v, 0)
+	walk(v, e, 0)
 	sort.Ints(arg.Derived)
 	return arg
 }
